@@ -1284,6 +1284,8 @@ class Interp(Ops):
         raise Unsupported(f"item assignment on {base!r}")
 
     def unpack(self, v: V, n: int):
+        if isinstance(v, VOpt):
+            v = self.unopt(v)
         if isinstance(v, (VTuple, VList)):
             items = self.items_of(v)
             if len(items) != n:
